@@ -27,7 +27,7 @@ ASSUMPTIONS = [
 ]
 BUDGET = {
     "quick": {"shards": 16, "examples": 50, "wall": 110, "steps": 40},
-    "thorough": {"shards": 16, "examples": 350, "wall": 3300, "steps": 60},
+    "thorough": {"shards": 16, "examples": 350, "wall": 1200, "steps": 60},
 }
 
 MASS = {
